@@ -181,6 +181,20 @@ where
     yvals[0] + x * (yvals[1] - yvals[0])
 }
 
+/// Advance the time step of a ratio ramp by one frame without passing the target value.
+/// The number of frames in a chunk is only estimated when the increment is calculated,
+/// so a chunk can hold a few more frames than the ramp was planned for.
+fn ramp_step(t_ratio: f64, t_ratio_increment: f64, t_ratio_end: f64) -> f64 {
+    let next = t_ratio + t_ratio_increment;
+    if (t_ratio_increment < 0.0 && next < t_ratio_end)
+        || (t_ratio_increment > 0.0 && next > t_ratio_end)
+    {
+        t_ratio_end
+    } else {
+        next
+    }
+}
+
 fn validate_ratios(
     resample_ratio: f64,
     max_resample_ratio_relative: f64,
@@ -306,7 +320,7 @@ where
         match self.interpolation {
             PolynomialDegree::Septic => {
                 while idx < end_idx as f64 {
-                    t_ratio += t_ratio_increment;
+                    t_ratio = ramp_step(t_ratio, t_ratio_increment, t_ratio_end);
                     idx += t_ratio;
                     let idx_floor = idx.floor();
                     let start_idx = idx_floor as isize - 3;
@@ -331,7 +345,7 @@ where
             }
             PolynomialDegree::Quintic => {
                 while idx < end_idx as f64 {
-                    t_ratio += t_ratio_increment;
+                    t_ratio = ramp_step(t_ratio, t_ratio_increment, t_ratio_end);
                     idx += t_ratio;
                     let idx_floor = idx.floor();
                     let start_idx = idx_floor as isize - 2;
@@ -356,7 +370,7 @@ where
             }
             PolynomialDegree::Cubic => {
                 while idx < end_idx as f64 {
-                    t_ratio += t_ratio_increment;
+                    t_ratio = ramp_step(t_ratio, t_ratio_increment, t_ratio_end);
                     idx += t_ratio;
                     let idx_floor = idx.floor();
                     let start_idx = idx_floor as isize - 1;
@@ -381,7 +395,7 @@ where
             }
             PolynomialDegree::Linear => {
                 while idx < end_idx as f64 {
-                    t_ratio += t_ratio_increment;
+                    t_ratio = ramp_step(t_ratio, t_ratio_increment, t_ratio_end);
                     idx += t_ratio;
                     let idx_floor = idx.floor();
                     let start_idx = idx_floor as isize;
@@ -406,7 +420,7 @@ where
             }
             PolynomialDegree::Nearest => {
                 while idx < end_idx as f64 {
-                    t_ratio += t_ratio_increment;
+                    t_ratio = ramp_step(t_ratio, t_ratio_increment, t_ratio_end);
                     idx += t_ratio;
                     let start_idx = idx.floor() as isize;
                     for (chan, active) in self.channel_mask.iter().enumerate() {
